@@ -378,3 +378,16 @@ pub proof fn lemma_enc_alphabet(raw: int)
         }
     }
 }
+
+/// C11, second sentence.  A VLQ text is canonical when it is the reference encoding of some non-empty
+/// list of 62-bit integers (minimal number of digits per value, no negative zero); for every such
+/// text, encoding the decoded values returns the text.
+pub open spec fn canonical(s: Seq<u8>) -> bool { exists|xs: Seq<int>| #[trigger] vlq_enc_list(xs) == s && all_fit(xs) && xs.len() > 0 }
+//@ lemma_canonical_text_roundtrip [C11]
+pub proof fn lemma_canonical_text_roundtrip(s: Seq<u8>)
+    requires canonical(s)
+    ensures vlq_parse(s) matches Some(vs) && vlq_enc_list(vs) == s
+{
+    let xs = choose|xs: Seq<int>| #[trigger] vlq_enc_list(xs) == s && all_fit(xs) && xs.len() > 0;
+    lemma_roundtrip_list(xs);
+}
